@@ -531,12 +531,29 @@ func (c *Client) completeCommand(cmd command, err error) {
 func (c *Client) registerContReq(cmd command) *imapwire.ContinuationRequest {
 	contReq := imapwire.NewContinuationRequest()
 
+	// Only queue the request while the command is pending: whoever completes
+	// the command cancels its requests. If it has already been completed (the
+	// connection was lost, the server refused a previous literal...), nobody
+	// would ever answer a request queued now.
 	c.mutex.Lock()
-	c.contReqs = append(c.contReqs, continuationRequest{
-		ContinuationRequest: contReq,
-		cmd:                 cmd.base(),
-	})
+	pending := false
+	for _, pendingCmd := range c.pendingCmds {
+		if pendingCmd.base() == cmd.base() {
+			pending = true
+			break
+		}
+	}
+	if pending {
+		c.contReqs = append(c.contReqs, continuationRequest{
+			ContinuationRequest: contReq,
+			cmd:                 cmd.base(),
+		})
+	}
 	c.mutex.Unlock()
+
+	if !pending {
+		contReq.Cancel(fmt.Errorf("imapclient: command already completed"))
+	}
 
 	return contReq
 }
